@@ -419,7 +419,8 @@ fn random_histories(ctx: &Ctx, rep: &mut Report, r: &mut Rng) {
             if jumbo {
                 for f in frags.iter_mut() {
                     if f.5.is_none() {
-                        let extra = *r.pick(&[0usize, 380, 5000, 30_000, 66_000, 98_000]);
+                        // a few histories with fragments of several MiB: groups pass 2^24 bytes
+                        let extra = if hi % 128 == 3 { *r.pick(&[0usize, 98_000, 5_000_000, 9_000_000]) } else { *r.pick(&[0usize, 380, 5000, 30_000, 66_000, 98_000]) };
                         f.3.extend(std::iter::repeat(b'w').take(extra));
                     }
                 }
@@ -561,6 +562,40 @@ pub fn run(ctx: &Ctx, rep: &mut Report) {
     exhaustive(ctx, rep, 4, true, 1);
     exhaustive(ctx, rep, 4, true, 2);
     random_histories(ctx, rep, &mut r);
+    // very many accepted unfragmented sentences (decoded or not) between the opener and the rest
+    // of a group: the group must still be delivered whole, or not at all
+    {
+        let mut item = 9000u64;
+        for run in [70_000usize, 100_001, 131_073] {
+            for decode in [false, true] {
+                if !ctx.mine(item) {
+                    item += 1;
+                    continue;
+                }
+                item += 1;
+                let mut lk = Lock::new(PID);
+                let id = Some(4);
+                let c = lk.next_ctr();
+                lk.feed_hdr(rep, 3, 1, id, &uniq_payload(c), 0, false, None, "mass-unfragmented");
+                for _ in 0..run {
+                    let st = lk.feed_hdr(rep, 1, 1, None, b"15RTgt0PAso;90TKcjM8h6g208CQ", 0, decode, Some(true), "mass-unfragmented");
+                    if st.violated {
+                        break;
+                    }
+                    // keep the replay log short: only the group lines and a few of the run matter
+                    if lk.log.len() > 8 {
+                        lk.log.truncate(4);
+                        lk.log.push((format!("... {} unfragmented sentences in all ...", run).into_bytes(), false));
+                    }
+                }
+                let c = lk.next_ctr();
+                lk.feed_hdr(rep, 3, 2, id, &uniq_payload(c), 0, false, None, "mass-unfragmented");
+                let c = lk.next_ctr();
+                lk.feed_hdr(rep, 3, 3, id, &uniq_payload(c), 0, false, None, "mass-unfragmented");
+                rep.count("mass-unfragmented-runs");
+            }
+        }
+    }
     for c in REQUIRED_CELLS {
         rep.require(&format!("cell:{}", c));
     }
